@@ -1,8 +1,10 @@
 import Pog.Lemmas.ConvSer
 import Pog.Lemmas.ConvRound
 /-
-  C16 `serializer_terminates_partial`: on an ACYCLIC heap (`Ranked`) both cattrs (`hUnstr`) and
+  C16 `serializer_terminates`: on EVERY heap — cyclic or not — both cattrs behind the cycle guard (`hUnstr`) and
   `DataclassSerializer.serialize` (`serF`) finish within some budget, for every registry.
+  The measure is the number of heap objects that are not in the guard set (`freeCount`): every container the walk
+  enters is added to the set, and an object of the set is never entered again.
   Everything is phrased with `Eventually P` = "∃ N, ∀ fuel ≥ N, ∀ reg, P fuel reg", so that no explicit bound is needed.
 -/
 namespace Pog
@@ -108,13 +110,78 @@ end Pog
 
 namespace Pog
 
-/-- "cattrs terminates on `x` for every large enough budget". -/
-def UnstrEv (c : Codecs) (heap : Heap) (decls : Decls) (t : Option Ty) (x : HVal) : Prop :=
-  Eventually (fun fuel reg => hUnstr c fuel heap reg decls t x ≠ .error .fuel)
+/-! ## the measure: heap objects outside the guard set -/
 
-/-- What the induction on the rank provides about the values an object holds. -/
-def KidsEv (c : Codecs) (heap : Heap) (decls : Decls) (v : HVal) : Prop :=
-  ∀ id o, v = .ref id → heap.get id = some o → ∀ x ∈ o.children, ∀ t, UnstrEv c heap decls t x
+/-- The number of objects of the heap whose id is not in `visited`. -/
+def freeCount (heap : Heap) (visited : List Nat) : Nat :=
+  ((heap.map Prod.fst).filter (fun i => !visited.contains i)).length
+
+theorem filter_length_le {α : Type} (p q : α → Bool) (hqp : ∀ x, q x = true → p x = true) (l : List α) :
+    (l.filter q).length ≤ (l.filter p).length := by
+  induction l with
+  | nil => simp
+  | cons x xs ih =>
+    simp only [List.filter_cons]
+    cases hq : q x with
+    | true => simp only [hqp x hq, if_true, List.length_cons]; omega
+    | false =>
+      cases hp : p x with
+      | true => simp only [if_true, Bool.false_eq_true, if_false, List.length_cons]; omega
+      | false => simpa using ih
+
+theorem filter_length_lt {α : Type} (p q : α → Bool) (hqp : ∀ x, q x = true → p x = true) (l : List α)
+    (a : α) (ha : a ∈ l) (hpa : p a = true) (hqa : q a = false) :
+    (l.filter q).length < (l.filter p).length := by
+  induction l with
+  | nil => cases ha
+  | cons x xs ih =>
+    simp only [List.filter_cons]
+    rcases List.mem_cons.mp ha with e | hm
+    · subst e
+      have := filter_length_le p q hqp xs
+      simp only [hpa, hqa, if_true, Bool.false_eq_true, if_false, List.length_cons]; omega
+    · have := ih hm
+      cases hq : q x with
+      | true => simp only [hqp x hq, if_true, List.length_cons]; omega
+      | false =>
+        cases hp : p x with
+        | true => simp only [if_true, Bool.false_eq_true, if_false, List.length_cons]; omega
+        | false => simpa using this
+
+theorem heap_get_mem (heap : Heap) (id : Nat) (o : HObj) (h : heap.get id = some o) : id ∈ heap.map Prod.fst := by
+  induction heap with
+  | nil => simp [Heap.get] at h
+  | cons e rest ih =>
+    obtain ⟨i, o'⟩ := e
+    simp only [Heap.get] at h
+    by_cases hi : i = id
+    · simp [hi]
+    · simp only [hi, if_false] at h
+      simp [ih h]
+
+/-- Entering an object that exists and is not in the guard set strictly decreases the measure. -/
+theorem freeCount_lt (heap : Heap) (visited : List Nat) (id : Nat) (o : HObj) (hg : heap.get id = some o)
+    (hv : visited.contains id = false) : freeCount heap (id :: visited) < freeCount heap visited := by
+  unfold freeCount
+  apply filter_length_lt _ _ _ _ id (heap_get_mem heap id o hg)
+  · simp only [hv, Bool.not_false]
+  · simp
+  · intro x hx
+    simp only [List.contains_cons, Bool.not_eq_true', Bool.or_eq_false_iff] at hx
+    simp only [hx.2, Bool.not_false]
+
+end Pog
+
+namespace Pog
+
+/-- "cattrs, with the guard set `visited`, terminates on `x` for every large enough budget". -/
+def UnstrEv (c : Codecs) (heap : Heap) (decls : Decls) (visited : List Nat) (t : Option Ty) (x : HVal) : Prop :=
+  Eventually (fun fuel reg => hUnstr c fuel heap visited reg decls t x ≠ .error .fuel)
+
+/-- What the induction on the measure provides about the values an object outside the guard set holds. -/
+def KidsEv (c : Codecs) (heap : Heap) (decls : Decls) (visited : List Nat) : Prop :=
+  ∀ id o, heap.get id = some o → visited.contains id = false →
+    ∀ x ∈ o.children, ∀ t, UnstrEv c heap decls (id :: visited) t x
 
 theorem hAttrs_children (heap : Heap) (v : HVal) (name : Str) (x : HVal) (h : aget (hAttrs heap v) name = some x) :
     ∃ id o, v = .ref id ∧ heap.get id = some o ∧ x ∈ o.children := by
@@ -132,67 +199,6 @@ theorem hAttrs_children (heap : Heap) (v : HVal) (name : Str) (x : HVal) (h : ag
       | dict _ => simp [hg, aget] at h
   | _ => simp [hAttrs, aget] at h
 
-/-- A field-by-field dataclass unstructure terminates when the attribute values do. -/
-theorem unstr_dc_ev (c : Codecs) (heap : Heap) (decls : Decls) (v : HVal) (hk : KidsEv c heap decls v) (name : Str) :
-    UnstrEv c heap decls (some (.dc name)) v := by
-  cases hcd : aget decls name with
-  | none => exact ⟨1, fun fuel hf reg => by obtain ⟨n, rfl⟩ : ∃ n, fuel = n + 1 := ⟨fuel - 1, by omega⟩; simp [hUnstr, hcd]⟩
-  | some cd =>
-    -- a uniform budget for the attribute values that exist
-    have hfields : ∀ f ∈ cd.fields, Eventually (fun fuel reg =>
-        ∀ x, aget (hAttrs heap v) f.pyName = some x → hUnstr c fuel heap reg decls (some f.ty) x ≠ .error .fuel) := by
-      intro f _
-      cases ha : aget (hAttrs heap v) f.pyName with
-      | none => exact ⟨0, fun _ _ _ x hx => by cases hx⟩
-      | some x =>
-        obtain ⟨id, o, hv, hg, hx⟩ := hAttrs_children heap v f.pyName x ha
-        obtain ⟨N, hN⟩ := hk id o hv hg x hx (some f.ty)
-        exact ⟨N, fun fuel hf reg y hy => by cases hy; exact hN fuel hf reg⟩
-    obtain ⟨N, hN⟩ := eventually_forall_mem cd.fields _ hfields
-    refine ⟨N + 1, fun fuel hf reg => ?_⟩
-    obtain ⟨n, rfl⟩ : ∃ n, fuel = n + 1 := ⟨fuel - 1, by omega⟩
-    simp only [hUnstr, hcd]
-    apply exceptMap_ne_fuel
-    apply hUnstrFields_ne_fuel
-    intro f hf x hx
-    exact hN n (by omega) reg f hf x hx
-
-/-- Runtime-class dispatch. -/
-theorem unstr_dyn_ev (c : Codecs) (heap : Heap) (decls : Decls) (v : HVal) (hk : KidsEv c heap decls v) :
-    UnstrEv c heap decls none v := by
-  have one : ∀ (P : Nat → List Str → Prop), (∀ n reg, P (n + 1) reg) → Eventually P :=
-    fun P h => ⟨1, fun fuel hf reg => by obtain ⟨n, rfl⟩ : ∃ n, fuel = n + 1 := ⟨fuel - 1, by omega⟩; exact h n reg⟩
-  cases v with
-  | ref id =>
-    cases hg : heap.get id with
-    | none => exact one _ (fun n reg => by simp [hUnstr, hg])
-    | some o =>
-      cases o with
-      | list items =>
-        obtain ⟨N, hN⟩ := eventually_forall_mem items _ (fun x hx => hk id _ rfl hg x (by simpa [HObj.children] using hx) none)
-        refine ⟨N + 1, fun fuel hf reg => ?_⟩
-        obtain ⟨n, rfl⟩ : ∃ n, fuel = n + 1 := ⟨fuel - 1, by omega⟩
-        simp only [hUnstr, hg]
-        exact exceptMap_ne_fuel _ _ (mapE_ne_fuel _ _ (fun x hx => hN n (by omega) reg x hx))
-      | dict kvs =>
-        obtain ⟨N, hN⟩ := eventually_forall_mem kvs (fun kv fuel reg => hUnstr c fuel heap reg decls none kv.2 ≠ .error .fuel)
-          (fun kv hkv => hk id _ rfl hg kv.2 (by simp only [HObj.children]; exact List.mem_map_of_mem (f := Prod.snd) hkv) none)
-        refine ⟨N + 1, fun fuel hf reg => ?_⟩
-        obtain ⟨n, rfl⟩ : ∃ n, fuel = n + 1 := ⟨fuel - 1, by omega⟩
-        simp only [hUnstr, hg]
-        exact exceptMap_ne_fuel _ _ (mapValsE_ne_fuel _ _ (fun kv hkv => hN n (by omega) reg kv hkv))
-      | inst cls attrs =>
-        obtain ⟨N, hN⟩ := unstr_dc_ev c heap decls (.ref id) hk cls
-        refine ⟨N + 1, fun fuel hf reg => ?_⟩
-        obtain ⟨n, rfl⟩ : ∃ n, fuel = n + 1 := ⟨fuel - 1, by omega⟩
-        simp only [hUnstr, hg]
-        exact hN n (by omega) reg
-  | _ => exact one _ (fun n reg => by simp [hUnstr])
-
-end Pog
-
-namespace Pog
-
 theorem eventually_one (P : Nat → List Str → Prop) (h : ∀ n reg, P (n + 1) reg) : Eventually P :=
   ⟨1, fun fuel hf reg => by obtain ⟨n, rfl⟩ : ∃ n, fuel = n + 1 := ⟨fuel - 1, by omega⟩; exact h n reg⟩
 
@@ -203,395 +209,174 @@ theorem eventually_succ (P Q : Nat → List Str → Prop) (hQ : Eventually Q) (h
     obtain ⟨n, rfl⟩ : ∃ n, fuel = n + 1 := ⟨fuel - 1, by omega⟩
     exact h n reg (hN n (by omega) reg)⟩
 
+theorem guardEnter_some (visited visited' : List Nat) (v : HVal) (h : guardEnter visited v = some visited') :
+    (∃ id, v = .ref id ∧ visited.contains id = false ∧ visited' = id :: visited) ∨ ((∀ id, v ≠ .ref id) ∧ visited' = visited) := by
+  cases v with
+  | ref id =>
+    simp only [guardEnter] at h
+    by_cases hc : visited.contains id = true
+    · rw [if_pos hc] at h; cases h
+    · rw [if_neg hc] at h
+      cases h
+      exact Or.inl ⟨id, rfl, by simpa using hc, rfl⟩
+  | _ => simp only [guardEnter, Option.some.injEq] at h; exact Or.inr ⟨fun id => by simp, h.symm⟩
+
+/-- A field-by-field dataclass unstructure (behind the guard) terminates when the attribute values do. -/
+theorem unstr_dc_ev (c : Codecs) (heap : Heap) (decls : Decls) (visited : List Nat) (hk : KidsEv c heap decls visited)
+    (v : HVal) (name : Str) : UnstrEv c heap decls visited (some (.dc name)) v := by
+  cases hcd : aget decls name with
+  | none => exact eventually_one _ (fun n reg => by simp [hUnstr, hcd])
+  | some cd =>
+    cases hge : guardEnter visited v with
+    | none => exact eventually_one _ (fun n reg => by simp [hUnstr, hcd, hge])
+    | some visited' =>
+      -- a uniform budget for the attribute values that exist
+      have hfields : ∀ f ∈ cd.fields, Eventually (fun fuel reg =>
+          ∀ x, aget (hAttrs heap v) f.pyName = some x →
+            hUnstr c fuel heap visited' reg decls (some f.ty) x ≠ .error .fuel) := by
+        intro f _
+        cases ha : aget (hAttrs heap v) f.pyName with
+        | none => exact ⟨0, fun _ _ _ x hx => by cases hx⟩
+        | some x =>
+          obtain ⟨id, o, hv, hg, hx⟩ := hAttrs_children heap v f.pyName x ha
+          rcases guardEnter_some visited visited' v hge with ⟨id', hv', hvis, hvs⟩ | ⟨hne, _⟩
+          · rw [hv] at hv'; cases hv'
+            subst hvs
+            obtain ⟨N, hN⟩ := hk id o hg hvis x hx (some f.ty)
+            exact ⟨N, fun fuel hf reg y hy => by cases hy; exact hN fuel hf reg⟩
+          · exact absurd hv (hne id)
+      obtain ⟨N, hN⟩ := eventually_forall_mem cd.fields _ hfields
+      refine ⟨N + 1, fun fuel hf reg => ?_⟩
+      obtain ⟨n, rfl⟩ : ∃ n, fuel = n + 1 := ⟨fuel - 1, by omega⟩
+      simp only [hUnstr, hcd, hge]
+      apply exceptMap_ne_fuel
+      apply hUnstrFields_ne_fuel
+      intro f hf x hx
+      exact hN n (by omega) reg f hf x hx
+
+/-- Runtime-class dispatch. -/
+theorem unstr_dyn_ev (c : Codecs) (heap : Heap) (decls : Decls) (visited : List Nat) (hk : KidsEv c heap decls visited)
+    (v : HVal) : UnstrEv c heap decls visited none v := by
+  cases v with
+  | ref id =>
+    cases hg : heap.get id with
+    | none => exact eventually_one _ (fun n reg => by simp [hUnstr, hg])
+    | some o =>
+      cases o with
+      | list items =>
+        by_cases hvis' : visited.contains id = true
+        · exact eventually_one _ (fun n reg => by simp only [hUnstr, hg, hvis', if_true]; simp)
+        · have hvis : visited.contains id = false := by simpa using hvis'
+          obtain ⟨N, hN⟩ := eventually_forall_mem items _
+            (fun x hx => hk id _ hg hvis x (by simpa [HObj.children] using hx) none)
+          refine ⟨N + 1, fun fuel hf reg => ?_⟩
+          obtain ⟨n, rfl⟩ : ∃ n, fuel = n + 1 := ⟨fuel - 1, by omega⟩
+          simp only [hUnstr, hg, hvis, Bool.false_eq_true, if_false]
+          exact exceptMap_ne_fuel _ _ (mapE_ne_fuel _ _ (fun x hx => hN n (by omega) reg x hx))
+      | dict kvs =>
+        by_cases hvis' : visited.contains id = true
+        · exact eventually_one _ (fun n reg => by simp only [hUnstr, hg, hvis', if_true]; simp)
+        · have hvis : visited.contains id = false := by simpa using hvis'
+          obtain ⟨N, hN⟩ := eventually_forall_mem kvs
+            (fun kv fuel reg => hUnstr c fuel heap (id :: visited) reg decls none kv.2 ≠ .error .fuel)
+            (fun kv hkv => hk id _ hg hvis kv.2
+              (by simp only [HObj.children]; exact List.mem_map_of_mem (f := Prod.snd) hkv) none)
+          refine ⟨N + 1, fun fuel hf reg => ?_⟩
+          obtain ⟨n, rfl⟩ : ∃ n, fuel = n + 1 := ⟨fuel - 1, by omega⟩
+          simp only [hUnstr, hg, hvis, Bool.false_eq_true, if_false]
+          exact exceptMap_ne_fuel _ _ (mapValsE_ne_fuel _ _ (fun kv hkv => hN n (by omega) reg kv hkv))
+      | inst cls attrs =>
+        exact eventually_succ _ _ (unstr_dc_ev c heap decls visited hk (.ref id) cls)
+          (fun n reg h => by simp only [hUnstr, hg]; exact h)
+  | _ => exact eventually_one _ (fun n reg => by simp [hUnstr])
+
 /-- Unstructuring by a declared type (`Optional` unwraps the type and keeps the value: recursion on the type). -/
-theorem unstr_static_ev (c : Codecs) (heap : Heap) (decls : Decls) (v : HVal) (hk : KidsEv c heap decls v) :
-    ∀ t : Ty, UnstrEv c heap decls (some t) v
+theorem unstr_static_ev (c : Codecs) (heap : Heap) (decls : Decls) (visited : List Nat)
+    (hk : KidsEv c heap decls visited) (v : HVal) : ∀ t : Ty, UnstrEv c heap decls visited (some t) v
   | .leaf l => eventually_one _ (fun n reg => by simp only [hUnstr]; exact hUnstrLeaf_ne_fuel c heap l v)
   | .none => eventually_one _ (fun n reg => by simp only [hUnstr]; exact hIdentity_ne_fuel heap v)
   | .fwd _ => eventually_one _ (fun n reg => by simp only [hUnstr]; exact hIdentity_ne_fuel heap v)
-  | .any => eventually_succ _ _ (unstr_dyn_ev c heap decls v hk) (fun n reg h => by simp only [hUnstr]; exact h)
-  | .union _ _ => eventually_succ _ _ (unstr_dyn_ev c heap decls v hk) (fun n reg h => by simp only [hUnstr]; exact h)
-  | .dc name => unstr_dc_ev c heap decls v hk name
+  | .any => eventually_succ _ _ (unstr_dyn_ev c heap decls visited hk v) (fun n reg h => by simp only [hUnstr]; exact h)
+  | .union _ _ =>
+    eventually_succ _ _ (unstr_dyn_ev c heap decls visited hk v) (fun n reg h => by simp only [hUnstr]; exact h)
+  | .dc name => unstr_dc_ev c heap decls visited hk v name
   | .enum _ members => eventually_one _ (fun n reg => by
       simp only [hUnstr]
       split
       · exact hIdentity_ne_fuel heap v
       · split <;> simp)
   | .optional t' => by
-    cases v with
-    | none => exact eventually_one _ (fun n reg => by simp [hUnstr])
-    | ref id => exact eventually_succ _ _ (unstr_static_ev c heap decls (.ref id) hk t') (fun n reg h => by simp only [hUnstr]; exact h)
-    | bool b => exact eventually_succ _ _ (unstr_static_ev c heap decls _ hk t') (fun n reg h => by simp only [hUnstr]; exact h)
-    | int b => exact eventually_succ _ _ (unstr_static_ev c heap decls _ hk t') (fun n reg h => by simp only [hUnstr]; exact h)
-    | str b => exact eventually_succ _ _ (unstr_static_ev c heap decls _ hk t') (fun n reg h => by simp only [hUnstr]; exact h)
-    | bytes b => exact eventually_succ _ _ (unstr_static_ev c heap decls _ hk t') (fun n reg h => by simp only [hUnstr]; exact h)
-    | bytearray b => exact eventually_succ _ _ (unstr_static_ev c heap decls _ hk t') (fun n reg h => by simp only [hUnstr]; exact h)
-    | datetime b => exact eventually_succ _ _ (unstr_static_ev c heap decls _ hk t') (fun n reg h => by simp only [hUnstr]; exact h)
-    | date b => exact eventually_succ _ _ (unstr_static_ev c heap decls _ hk t') (fun n reg h => by simp only [hUnstr]; exact h)
-    | time b => exact eventually_succ _ _ (unstr_static_ev c heap decls _ hk t') (fun n reg h => by simp only [hUnstr]; exact h)
-    | uuid b => exact eventually_succ _ _ (unstr_static_ev c heap decls _ hk t') (fun n reg h => by simp only [hUnstr]; exact h)
-    | enum cl b => exact eventually_succ _ _ (unstr_static_ev c heap decls _ hk t') (fun n reg h => by simp only [hUnstr]; exact h)
-    | «opaque» k b => exact eventually_succ _ _ (unstr_static_ev c heap decls _ hk t') (fun n reg h => by simp only [hUnstr]; exact h)
+    have ih := unstr_static_ev c heap decls visited hk v t'
+    by_cases hn : v = .none
+    · subst hn; exact eventually_one _ (fun n reg => by simp [hUnstr])
+    · refine eventually_succ _ _ ih (fun n reg h => ?_)
+      cases v <;> first | exact absurd rfl hn | (simp only [hUnstr]; exact h)
   | .list t' => by
     cases v with
     | ref id =>
-      cases hg : heap.get id with
-      | none => exact eventually_one _ (fun n reg => by simp [hUnstr, hg])
-      | some o =>
-        cases o with
-        | list items =>
-          obtain ⟨N, hN⟩ := eventually_forall_mem items _
-            (fun x hx => hk id _ rfl hg x (by simpa [HObj.children] using hx) (some t'))
-          refine ⟨N + 1, fun fuel hf reg => ?_⟩
-          obtain ⟨n, rfl⟩ : ∃ n, fuel = n + 1 := ⟨fuel - 1, by omega⟩
-          simp only [hUnstr, hg]
-          exact exceptMap_ne_fuel _ _ (mapE_ne_fuel _ _ (fun x hx => hN n (by omega) reg x hx))
-        | dict _ => exact eventually_one _ (fun n reg => by simp [hUnstr, hg])
-        | inst _ _ => exact eventually_one _ (fun n reg => by simp [hUnstr, hg])
+      by_cases hvis' : visited.contains id = true
+      · exact eventually_one _ (fun n reg => by simp only [hUnstr, hvis', if_true]; simp)
+      · have hvis : visited.contains id = false := by simpa using hvis'
+        cases hg : heap.get id with
+        | none => exact eventually_one _ (fun n reg => by simp only [hUnstr, hg, hvis, Bool.false_eq_true, if_false]; simp)
+        | some o =>
+          cases o with
+          | list items =>
+            obtain ⟨N, hN⟩ := eventually_forall_mem items _
+              (fun x hx => hk id _ hg hvis x (by simpa [HObj.children] using hx) (some t'))
+            refine ⟨N + 1, fun fuel hf reg => ?_⟩
+            obtain ⟨n, rfl⟩ : ∃ n, fuel = n + 1 := ⟨fuel - 1, by omega⟩
+            simp only [hUnstr, hg, hvis, Bool.false_eq_true, if_false]
+            exact exceptMap_ne_fuel _ _ (mapE_ne_fuel _ _ (fun x hx => hN n (by omega) reg x hx))
+          | dict _ => exact eventually_one _ (fun n reg => by simp only [hUnstr, hg, hvis, Bool.false_eq_true, if_false]; simp)
+          | inst _ _ => exact eventually_one _ (fun n reg => by simp only [hUnstr, hg, hvis, Bool.false_eq_true, if_false]; simp)
     | _ => exact eventually_one _ (fun n reg => by simp [hUnstr])
   | .dict t' => by
     cases v with
     | ref id =>
-      cases hg : heap.get id with
-      | none => exact eventually_one _ (fun n reg => by simp [hUnstr, hg])
-      | some o =>
-        cases o with
-        | dict kvs =>
-          obtain ⟨N, hN⟩ := eventually_forall_mem kvs
-            (fun kv fuel reg => hUnstr c fuel heap reg decls (some t') kv.2 ≠ .error .fuel)
-            (fun kv hkv => hk id _ rfl hg kv.2
-              (by simp only [HObj.children]; exact List.mem_map_of_mem (f := Prod.snd) hkv) (some t'))
-          refine ⟨N + 1, fun fuel hf reg => ?_⟩
-          obtain ⟨n, rfl⟩ : ∃ n, fuel = n + 1 := ⟨fuel - 1, by omega⟩
-          simp only [hUnstr, hg]
-          exact exceptMap_ne_fuel _ _ (mapValsE_ne_fuel _ _ (fun kv hkv => hN n (by omega) reg kv hkv))
-        | list _ => exact eventually_one _ (fun n reg => by simp [hUnstr, hg])
-        | inst _ _ => exact eventually_one _ (fun n reg => by simp [hUnstr, hg])
-    | _ => exact eventually_one _ (fun n reg => by simp [hUnstr])
-
-/-- cattrs terminates on every value of an acyclic heap, at every type. -/
-theorem unstr_ev_of_ranked (c : Codecs) (heap : Heap) (decls : Decls) (rank : Nat → Nat) (hr : Ranked heap rank) :
-    ∀ r v, rankV rank v ≤ r → ∀ t, UnstrEv c heap decls t v := by
-  intro r
-  induction r with
-  | zero =>
-    intro v hv t
-    have hk : KidsEv c heap decls v := by
-      intro id o hvid _ _ _ _
-      subst hvid; simp [rankV] at hv
-    cases t with
-    | none => exact unstr_dyn_ev c heap decls v hk
-    | some t => exact unstr_static_ev c heap decls v hk t
-  | succ r ih =>
-    intro v hv t
-    have hk : KidsEv c heap decls v := by
-      intro id o hvid hg x hx t'
-      subst hvid
-      simp only [rankV] at hv
-      exact ih x (Nat.le_trans (hr id o hg x hx) (by omega)) t'
-    cases t with
-    | none => exact unstr_dyn_ev c heap decls v hk
-    | some t => exact unstr_static_ev c heap decls v hk t
-
-end Pog
-
-namespace Pog
-
-theorem mem_leaksList (ps : List PV) (id : Nat) (h : id ∈ PV.leaksList ps) : ∃ p ∈ ps, id ∈ p.leaks := by
-  induction ps with
-  | nil => simp [PV.leaksList] at h
-  | cons p ps ih =>
-    simp only [PV.leaksList, List.mem_append] at h
-    rcases h with h | h
-    · exact ⟨p, by simp, h⟩
-    · obtain ⟨q, hq, hid⟩ := ih h; exact ⟨q, by simp [hq], hid⟩
-
-theorem mem_leaksKvs (kvs : List (Str × PV)) (id : Nat) (h : id ∈ PV.leaksKvs kvs) : ∃ kv ∈ kvs, id ∈ kv.2.leaks := by
-  induction kvs with
-  | nil => simp [PV.leaksKvs] at h
-  | cons kv rest ih =>
-    obtain ⟨k, p⟩ := kv
-    simp only [PV.leaksKvs, List.mem_append] at h
-    rcases h with h | h
-    · exact ⟨(k, p), by simp, h⟩
-    · obtain ⟨q, hq, hid⟩ := ih h; exact ⟨q, by simp [hq], hid⟩
-
-theorem mem_aset {α : Type} (d : List (Str × α)) (k : Str) (v : α) (kv : Str × α) (h : kv ∈ aset d k v) :
-    kv ∈ d ∨ kv = (k, v) := by
-  induction d with
-  | nil => simp [aset] at h; exact Or.inr h
-  | cons e rest ih =>
-    obtain ⟨k', v'⟩ := e
-    simp only [aset] at h
-    by_cases hk : k' = k
-    · simp only [hk, if_true, List.mem_cons] at h
-      rcases h with h | h
-      · exact Or.inr (by rw [h])
-      · exact Or.inl (by simp [h])
-    · simp only [hk, if_false, List.mem_cons] at h
-      rcases h with h | h
-      · exact Or.inl (by simp [h])
-      · rcases ih h with h' | h'
-        · exact Or.inl (by simp [h'])
-        · exact Or.inr h'
-
-theorem mem_aofPairs {α : Type} (kvs : List (Str × α)) (kv : Str × α) (h : kv ∈ aofPairs kvs) : kv ∈ kvs := by
-  unfold aofPairs at h
-  have key : ∀ (l acc : List (Str × α)), kv ∈ l.foldl (fun a e => aset a e.1 e.2) acc → kv ∈ acc ∨ kv ∈ l := by
-    intro l
-    induction l with
-    | nil => intro acc h; exact Or.inl h
-    | cons e rest ih =>
-      intro acc h
-      simp only [List.foldl_cons] at h
-      rcases ih _ h with h' | h'
-      · rcases mem_aset acc e.1 e.2 kv h' with h'' | h''
-        · exact Or.inl h''
-        · exact Or.inr (by simp [h''])
-      · exact Or.inr (by simp [h'])
-  rcases key kvs [] h with h' | h'
-  · cases h'
-  · exact h'
-
-theorem mapE_mem {α β ε : Type} (f : α → Except ε β) (xs : List α) (ys : List β) (h : mapE f xs = .ok ys) :
-    ∀ y ∈ ys, ∃ x ∈ xs, f x = .ok y := by
-  induction xs generalizing ys with
-  | nil => simp [mapE] at h; subst h; simp
-  | cons x xs ih =>
-    simp only [mapE] at h
-    cases hx : f x with
-    | error e => simp [hx] at h
-    | ok y0 =>
-      cases hm : mapE f xs with
-      | error e => simp [hx, hm] at h
-      | ok ys0 =>
-        simp only [hx, hm, Except.ok.injEq] at h
-        subst h
-        intro y hy
-        rcases List.mem_cons.mp hy with e | hmem
-        · subst e; exact ⟨x, by simp, hx⟩
-        · obtain ⟨x', hx', hfx'⟩ := ih ys0 hm y hmem
-          exact ⟨x', by simp [hx'], hfx'⟩
-
-theorem mapValsE_mem {α β ε : Type} (f : α → Except ε β) (xs : List (Str × α)) (ys : List (Str × β))
-    (h : mapValsE f xs = .ok ys) : ∀ y ∈ ys, ∃ x ∈ xs, f x.2 = .ok y.2 := by
-  induction xs generalizing ys with
-  | nil => simp [mapValsE] at h; subst h; simp
-  | cons x xs ih =>
-    obtain ⟨k, a⟩ := x
-    simp only [mapValsE] at h
-    cases hx : f a with
-    | error e => simp [hx] at h
-    | ok y0 =>
-      cases hm : mapValsE f xs with
-      | error e => simp [hx, hm] at h
-      | ok ys0 =>
-        simp only [hx, hm, Except.ok.injEq] at h
-        subst h
-        intro y hy
-        rcases List.mem_cons.mp hy with e | hmem
-        · subst e; exact ⟨(k, a), by simp, hx⟩
-        · obtain ⟨x', hx', hfx'⟩ := ih ys0 hm y hmem
-          exact ⟨x', by simp [hx'], hfx'⟩
-
-theorem hUnstrFields_mem (rec : Ty → HVal → Except UErr PV) (cd : ClassDecl) (useDump : Bool)
-    (attrs : List (Str × HVal)) (fs : List Field) (kvs : List (Str × PV))
-    (h : hUnstrFields rec cd useDump attrs fs = .ok kvs) :
-    ∀ kv ∈ kvs, ∃ f ∈ fs, ∃ x, aget attrs f.pyName = some x ∧ rec f.ty x = .ok kv.2 := by
-  induction fs generalizing kvs with
-  | nil => simp [hUnstrFields] at h; subst h; simp
-  | cons f fs ih =>
-    simp only [hUnstrFields] at h
-    cases ha : aget attrs f.pyName with
-    | none => simp [ha] at h
-    | some x =>
-      cases hr : rec f.ty x with
-      | error e => simp [ha, hr] at h
-      | ok j =>
-        cases hm : hUnstrFields rec cd useDump attrs fs with
-        | error e => simp [ha, hr, hm] at h
-        | ok rest =>
-          simp only [ha, hr, hm, Except.ok.injEq] at h
-          subst h
-          intro kv hkv
-          rcases List.mem_cons.mp hkv with e | hmem
-          · subst e; exact ⟨f, by simp, x, ha, hr⟩
-          · obtain ⟨g, hg, y, hy1, hy2⟩ := ih rest hm kv hmem
-            exact ⟨g, by simp [hg], y, hy1, hy2⟩
-
-end Pog
-
-namespace Pog
-
-def LeakBound (rank : Nat → Nat) (b : Nat) (p : PV) : Prop := ∀ id ∈ p.leaks, rank id + 1 ≤ b
-
-theorem leakBound_mono (rank : Nat → Nat) (b b' : Nat) (p : PV) (h : LeakBound rank b p) (hb : b ≤ b') :
-    LeakBound rank b' p := fun id hid => Nat.le_trans (h id hid) hb
-
-theorem enumPV_leaks (m : JsonV) : (enumPV m).leaks = [] := by cases m <;> rfl
-
-theorem immediatePV_leaks (v : HVal) (p : PV) (h : immediatePV v = some p) : p.leaks = [] := by
-  cases v <;> simp [immediatePV] at h <;> subst h <;> first | rfl | exact enumPV_leaks _
-
-theorem hIdentity_leaks (rank : Nat → Nat) (heap : Heap) (v : HVal) (p : PV) (h : hIdentity heap v = .ok p) :
-    LeakBound rank (rankV rank v) p := by
-  unfold hIdentity at h
-  split at h
-  · rename_i id
-    split at h
-    · cases h; intro i hi; simp [PV.leaks] at hi; subst hi; simp [rankV]
-    · cases h
-  · split at h
-    · rename_i q hq
-      cases h
-      intro i hi; rw [immediatePV_leaks _ _ hq] at hi; cases hi
-    · cases h
-
-theorem hUnstrIso_leaks (c : Codecs) (rank : Nat → Nat) (v : HVal) (p : PV)
-    (h : hUnstrIso c v = .ok p) : LeakBound rank (rankV rank v) p := by
-  unfold hUnstrIso at h
-  split at h
-  · cases h; intro i hi; simp [PV.leaks] at hi
-  · cases h; intro i hi; simp [PV.leaks] at hi
-  · cases h; intro i hi; simp [PV.leaks] at hi
-  · cases h
-
-theorem hUnstrLeaf_leaks (c : Codecs) (rank : Nat → Nat) (heap : Heap) (l : Leaf) (v : HVal) (p : PV)
-    (h : hUnstrLeaf c heap l v = .ok p) : LeakBound rank (rankV rank v) p := by
-  unfold hUnstrLeaf at h
-  split at h
-  · exact hIdentity_leaks rank heap v p h
-  · split at h
-    · split at h
-      · cases h; intro i hi; simp [PV.leaks] at hi
-      · cases h
-    · exact hUnstrIso_leaks c rank v p h
-    · exact hUnstrIso_leaks c rank v p h
-    · exact hUnstrIso_leaks c rank v p h
-    · split at h
-      · cases h; intro i hi; simp [PV.leaks] at hi
-      · cases h; intro i hi; simp [PV.leaks] at hi
-      · cases h; intro i hi; simp [PV.leaks] at hi
-      · cases h; intro i hi; simp [PV.leaks] at hi
-      · cases h; intro i hi; simp [PV.leaks] at hi
-      · cases h
-    · exact hIdentity_leaks rank heap v p h
-
-/-- Every instance leaked by cattrs is the value itself or lies strictly below it. -/
-theorem hUnstr_leaks (c : Codecs) (heap : Heap) (decls : Decls) (rank : Nat → Nat) (hr : Ranked heap rank) :
-    ∀ n reg t v p, hUnstr c n heap reg decls t v = .ok p → LeakBound rank (rankV rank v) p := by
-  intro n
-  induction n with
-  | zero => intro reg t v p h; simp [hUnstr] at h
-  | succ n ih =>
-    intro reg t v p h
-    -- the three container shapes, shared by the static and the dynamic dispatch
-    have hlist : ∀ id items (t' : Option Ty), v = .ref id → heap.get id = some (.list items) →
-        (mapE (hUnstr c n heap reg decls t') items).map PV.arr = .ok p → LeakBound rank (rankV rank v) p := by
-      intro id items t' hv hg hm
-      cases hme : mapE (hUnstr c n heap reg decls t') items with
-      | error e => simp [hme, Except.map] at hm
-      | ok ps =>
-        simp only [hme, Except.map, Except.ok.injEq] at hm
-        subst hm; subst hv
-        intro i hi
-        simp only [PV.leaks] at hi
-        obtain ⟨q, hq, hiq⟩ := mem_leaksList ps i hi
-        obtain ⟨x, hx, hfx⟩ := mapE_mem _ _ _ hme q hq
-        have := ih reg t' x q hfx i hiq
-        have hrx := hr id _ hg x (by simpa [HObj.children] using hx)
-        simp only [rankV]; omega
-    have hdict : ∀ id kvs (t' : Option Ty), v = .ref id → heap.get id = some (.dict kvs) →
-        (mapValsE (hUnstr c n heap reg decls t') kvs).map PV.obj = .ok p → LeakBound rank (rankV rank v) p := by
-      intro id kvs t' hv hg hm
-      cases hme : mapValsE (hUnstr c n heap reg decls t') kvs with
-      | error e => simp [hme, Except.map] at hm
-      | ok ps =>
-        simp only [hme, Except.map, Except.ok.injEq] at hm
-        subst hm; subst hv
-        intro i hi
-        simp only [PV.leaks] at hi
-        obtain ⟨q, hq, hiq⟩ := mem_leaksKvs ps i hi
-        obtain ⟨x, hx, hfx⟩ := mapValsE_mem _ _ _ hme q hq
-        have := ih reg t' x.2 q.2 hfx i hiq
-        have hrx := hr id _ hg x.2 (by simp only [HObj.children]; exact List.mem_map_of_mem (f := Prod.snd) hx)
-        simp only [rankV]; omega
-    have hdc : ∀ name, hUnstr c (n + 1) heap reg decls (some (.dc name)) v = .ok p → LeakBound rank (rankV rank v) p := by
-      intro name hh
-      simp only [hUnstr] at hh
-      cases hcd : aget decls name with
-      | none => simp [hcd] at hh
-      | some cd =>
-        simp only [hcd] at hh
-        cases hf : hUnstrFields (fun ft fv => hUnstr c n heap reg decls (some ft) fv) cd (reg.contains name)
-            (hAttrs heap v) cd.fields with
-        | error e => rw [hf] at hh; simp only [Except.map] at hh; cases hh
-        | ok kvs =>
-          simp only [hf, Except.map, Except.ok.injEq] at hh
-          subst hh
-          intro i hi
-          simp only [PV.leaks] at hi
-          obtain ⟨kv, hkv, hikv⟩ := mem_leaksKvs _ i hi
-          obtain ⟨f, _, x, hax, hrx⟩ := hUnstrFields_mem _ _ _ _ _ _ hf kv (mem_aofPairs _ _ hkv)
-          obtain ⟨id, o, hv, hg, hxo⟩ := hAttrs_children heap v f.pyName x hax
-          have := ih reg (some f.ty) x kv.2 hrx i hikv
-          have hrk := hr id o hg x hxo
-          subst hv
-          simp only [rankV]; omega
-    cases t with
-    | none =>
-      cases v with
-      | ref id =>
-        simp only [hUnstr] at h
+      by_cases hvis' : visited.contains id = true
+      · exact eventually_one _ (fun n reg => by simp only [hUnstr, hvis', if_true]; simp)
+      · have hvis : visited.contains id = false := by simpa using hvis'
         cases hg : heap.get id with
-        | none => simp [hg] at h
+        | none => exact eventually_one _ (fun n reg => by simp only [hUnstr, hg, hvis, Bool.false_eq_true, if_false]; simp)
         | some o =>
           cases o with
-          | list items => simp only [hg] at h; exact hlist id items none rfl hg h
-          | dict kvs => simp only [hg] at h; exact hdict id kvs none rfl hg h
-          | inst cls attrs =>
-            simp only [hg] at h
-            cases n with
-            | zero => simp [hUnstr] at h
-            | succ m => exact ih reg (some (.dc cls)) (.ref id) p h
-      | enum cl m => simp [hUnstr] at h; subst h; intro i hi; rw [enumPV_leaks] at hi; cases hi
-      | _ => simp [hUnstr] at h; subst h; intro i hi; simp [PV.leaks] at hi
-    | some t =>
-      cases t with
-      | leaf l => simp only [hUnstr] at h; exact hUnstrLeaf_leaks c rank heap l v p h
-      | any => simp only [hUnstr] at h; exact ih reg none v p h
-      | none => simp only [hUnstr] at h; exact hIdentity_leaks rank heap v p h
-      | fwd _ => simp only [hUnstr] at h; exact hIdentity_leaks rank heap v p h
-      | union _ _ => simp only [hUnstr] at h; exact ih reg none v p h
-      | dc name => exact hdc name h
-      | enum _ ms =>
-        simp only [hUnstr] at h
-        split at h
-        · exact hIdentity_leaks rank heap v p h
-        · split at h
-          · cases h; intro i hi; rw [enumPV_leaks] at hi; cases hi
-          · cases h
-      | optional t' =>
-        simp only [hUnstr] at h
-        split at h
-        · cases h; intro i hi; simp [PV.leaks] at hi
-        · exact ih reg (some t') v p h
-      | list t' =>
-        simp only [hUnstr] at h
-        split at h
-        · rename_i id
-          split at h
-          · rename_i items hg; exact hlist id items (some t') rfl hg h
-          · cases h
-        · cases h
-      | dict t' =>
-        simp only [hUnstr] at h
-        split at h
-        · rename_i id
-          split at h
-          · rename_i kvs hg; exact hdict id kvs (some t') rfl hg h
-          · cases h
-        · cases h
+          | dict kvs =>
+            obtain ⟨N, hN⟩ := eventually_forall_mem kvs
+              (fun kv fuel reg => hUnstr c fuel heap (id :: visited) reg decls (some t') kv.2 ≠ .error .fuel)
+              (fun kv hkv => hk id _ hg hvis kv.2
+                (by simp only [HObj.children]; exact List.mem_map_of_mem (f := Prod.snd) hkv) (some t'))
+            refine ⟨N + 1, fun fuel hf reg => ?_⟩
+            obtain ⟨n, rfl⟩ : ∃ n, fuel = n + 1 := ⟨fuel - 1, by omega⟩
+            simp only [hUnstr, hg, hvis, Bool.false_eq_true, if_false]
+            exact exceptMap_ne_fuel _ _ (mapValsE_ne_fuel _ _ (fun kv hkv => hN n (by omega) reg kv hkv))
+          | list _ => exact eventually_one _ (fun n reg => by simp only [hUnstr, hg, hvis, Bool.false_eq_true, if_false]; simp)
+          | inst _ _ => exact eventually_one _ (fun n reg => by simp only [hUnstr, hg, hvis, Bool.false_eq_true, if_false]; simp)
+    | _ => exact eventually_one _ (fun n reg => by simp [hUnstr])
+
+/-- cattrs behind the cycle guard terminates on every value of every heap, at every type, for every guard set. -/
+theorem unstr_ev_all (c : Codecs) (heap : Heap) (decls : Decls) :
+    ∀ k visited, freeCount heap visited ≤ k → ∀ t v, UnstrEv c heap decls visited t v := by
+  intro k
+  induction k with
+  | zero =>
+    intro visited hfc t v
+    have hk : KidsEv c heap decls visited := by
+      intro id o hg hvis _ _ _
+      have := freeCount_lt heap visited id o hg hvis
+      omega
+    cases t with
+    | none => exact unstr_dyn_ev c heap decls visited hk v
+    | some t => exact unstr_static_ev c heap decls visited hk v t
+  | succ k ih =>
+    intro visited hfc t v
+    have hk : KidsEv c heap decls visited := by
+      intro id o hg hvis x _ t'
+      have := freeCount_lt heap visited id o hg hvis
+      exact ih (id :: visited) (by omega) t' x
+    cases t with
+    | none => exact unstr_dyn_ev c heap decls visited hk v
+    | some t => exact unstr_static_ev c heap decls visited hk v t
 
 end Pog
 
@@ -673,41 +458,82 @@ theorem mapSt_ne_fuel {α β : Type} (f : List Str → α → Except UErr (β ×
       | error e => simp only [ne_eq, Except.error.injEq]; intro he; exact ih' (by rw [hm, he])
       | ok r2 => simp
 
-end Pog
-
-namespace Pog
-
-theorem heap_get_mem (heap : Heap) (id : Nat) (o : HObj) (h : heap.get id = some o) : id ∈ heap.map Prod.fst := by
-  induction heap with
-  | nil => simp [Heap.get] at h
-  | cons e rest ih =>
-    obtain ⟨i, o'⟩ := e
-    simp only [Heap.get] at h
-    by_cases hi : i = id
-    · simp [hi]
-    · simp only [hi, if_false] at h
-      simp [ih h]
-
-/-- Values that are not references: one step, plus cattrs on an immediate. -/
-theorem serF_ev_imm (c : Codecs) (heap : Heap) (decls : Decls) (rank : Nat → Nat) (hr : Ranked heap rank)
-    (v : HVal) (hv : rankV rank v = 0) (visited : List Nat) :
+/-- One level of `_serialize_with_tracking`: it terminates when it does on every value below an object that it
+    enters (`sub`). -/
+theorem serF_ev_step (c : Codecs) (heap : Heap) (decls : Decls) (visited : List Nat)
+    (sub : ∀ id o, heap.get id = some o → visited.contains id = false → ∀ x,
+      Eventually (fun fuel reg => serF c fuel heap decls (id :: visited) reg x ≠ .error .fuel)) (v : HVal) :
     Eventually (fun fuel reg => serF c fuel heap decls visited reg v ≠ .error .fuel) := by
   have helse : (∀ n reg, serF c (n + 1) heap decls visited reg v =
-      match hUnstr c n heap reg decls none v with
+      match hUnstr c n heap visited reg decls none v with
       | .error e => .error e
       | .ok result => .ok (result.removeNone, reg)) →
       Eventually (fun fuel reg => serF c fuel heap decls visited reg v ≠ .error .fuel) := by
     intro hs
-    obtain ⟨N, hN⟩ := unstr_ev_of_ranked c heap decls rank hr 0 v (by omega) none
+    obtain ⟨N, hN⟩ := unstr_ev_all c heap decls _ visited (Nat.le_refl _) none v
     refine ⟨N + 1, fun fuel hf reg => ?_⟩
     obtain ⟨n, rfl⟩ : ∃ n, fuel = n + 1 := ⟨fuel - 1, by omega⟩
     have := hN n (by omega) reg
     rw [hs]
-    cases hu : hUnstr c n heap reg decls none v with
+    cases hu : hUnstr c n heap visited reg decls none v with
     | error e => simp only [ne_eq, Except.error.injEq]; intro he; exact this (by rw [hu, he])
     | ok p => simp
   cases v with
-  | ref id => simp [rankV] at hv
+  | ref id =>
+    by_cases hvis' : visited.contains id = true
+    · exact eventually_one _ (fun n reg => by simp only [serF, hvis', if_true]; simp)
+    · have hvis : visited.contains id = false := by simpa using hvis'
+      cases hg : heap.get id with
+      | none => exact eventually_one _ (fun n reg => by simp only [serF, hvis, hg]; simp)
+      | some o =>
+        cases o with
+        | list items =>
+          obtain ⟨N, hN⟩ := eventually_forall_mem items
+            (fun x fuel reg => serF c fuel heap decls (id :: visited) reg x ≠ .error .fuel)
+            (fun x _ => sub id _ hg hvis x)
+          refine ⟨N + 1, fun fuel hf reg => ?_⟩
+          obtain ⟨n, rfl⟩ : ∃ n, fuel = n + 1 := ⟨fuel - 1, by omega⟩
+          simp only [serF, hvis, hg, Bool.false_eq_true, if_false]
+          have := mapSt_ne_fuel (fun r item => serF c n heap decls (id :: visited) r item) items
+            (fun x hx r' => hN n (by omega) r' x hx) reg
+          cases hm : mapSt (fun r item => serF c n heap decls (id :: visited) r item) reg items with
+          | error e => simp only [ne_eq, Except.error.injEq]; intro he; exact this (by rw [hm, he])
+          | ok pr => simp
+        | dict kvs =>
+          exact helse (fun n reg => by simp only [serF, hvis, hg, Bool.false_eq_true, if_false]; rfl)
+        | inst cls attrs =>
+          -- cattrs on the instance
+          obtain ⟨N1, hN1⟩ := unstr_ev_all c heap decls _ visited (Nat.le_refl _) (some (.dc cls)) (.ref id)
+          -- every object of the heap, serialised below `id`, uniformly
+          obtain ⟨N2, hN2⟩ := eventually_forall_mem (heap.map Prod.fst)
+            (fun i fuel reg => serF c fuel heap decls (id :: visited) reg (.ref i) ≠ .error .fuel)
+            (fun i _ => sub id _ hg hvis (.ref i))
+          refine ⟨max N1 N2 + 2, fun fuel hf reg => ?_⟩
+          obtain ⟨n, rfl⟩ : ∃ n, fuel = n + 1 := ⟨fuel - 1, by omega⟩
+          simp only [serF, hvis, hg, Bool.false_eq_true, if_false]
+          have hA := hN1 n (by omega) ((regTy n decls [] (.dc cls)).foldl insertName reg)
+          cases hu : hUnstr c n heap visited ((regTy n decls [] (.dc cls)).foldl insertName reg) decls
+              (some (.dc cls)) (.ref id) with
+          | error e => simp only [ne_eq, Except.error.injEq]; intro he; exact hA (by rw [hu, he])
+          | ok p =>
+            simp only
+            have hE := ensureWith_ne_fuel (fun r' i => serF c n heap decls (id :: visited) r' (.ref i)) p
+              ((regTy n decls [] (.dc cls)).foldl insertName reg)
+              (fun i _ r' => by
+                by_cases hmem : i ∈ heap.map Prod.fst
+                · exact hN2 n (by omega) r' i hmem
+                · -- not an object of the heap at all: the lookup fails, which is not a budget failure
+                  obtain ⟨m, rfl⟩ : ∃ m, n = m + 1 := ⟨n - 1, by omega⟩
+                  have hgi : heap.get i = none := by
+                    cases hgi : heap.get i with
+                    | none => rfl
+                    | some o' => exact absurd (heap_get_mem heap i o' hgi) hmem
+                  simp only [serF, hgi]
+                  split <;> simp)
+            cases he : PV.ensureWith (fun r' i => serF c n heap decls (id :: visited) r' (.ref i))
+                ((regTy n decls [] (.dc cls)).foldl insertName reg) p with
+            | error e => simp only [ne_eq, Except.error.injEq]; intro hee; exact hE (by rw [he, hee])
+            | ok pr => simp
   | none => exact eventually_one _ (fun n reg => by simp [serF])
   | bool _ => exact eventually_one _ (fun n reg => by simp [serF])
   | int _ => exact eventually_one _ (fun n reg => by simp [serF])
@@ -721,119 +547,21 @@ theorem serF_ev_imm (c : Codecs) (heap : Heap) (decls : Decls) (rank : Nat → N
   | uuid b => exact helse (fun n reg => by simp only [serF]; rfl)
   | «opaque» k b => exact helse (fun n reg => by simp only [serF]; rfl)
 
-/-- `DataclassSerializer.serialize` terminates on every value of an acyclic heap. -/
-theorem serF_ev_of_ranked (c : Codecs) (heap : Heap) (decls : Decls) (rank : Nat → Nat) (hr : Ranked heap rank) :
-    ∀ r v, rankV rank v ≤ r → ∀ visited,
+/-- `DataclassSerializer.serialize` terminates on every value of every heap, for every guard set. -/
+theorem serF_ev_all (c : Codecs) (heap : Heap) (decls : Decls) :
+    ∀ k visited, freeCount heap visited ≤ k → ∀ v,
       Eventually (fun fuel reg => serF c fuel heap decls visited reg v ≠ .error .fuel) := by
-  intro r
-  induction r with
-  | zero => intro v hv visited; exact serF_ev_imm c heap decls rank hr v (by omega) visited
-  | succ r ih =>
-    intro v hv visited
-    cases v with
-    | ref id =>
-      simp only [rankV] at hv
-      by_cases hvis' : visited.contains id = true
-      · exact eventually_one _ (fun n reg => by simp only [serF, hvis', if_true]; simp)
-      · have hvis : visited.contains id = false := by simpa using hvis'
-        cases hg : heap.get id with
-        | none => exact eventually_one _ (fun n reg => by simp only [serF, hvis, hg]; simp)
-        | some o =>
-          cases o with
-          | list items =>
-            obtain ⟨N, hN⟩ := eventually_forall_mem items
-              (fun x fuel reg => serF c fuel heap decls (id :: visited) reg x ≠ .error .fuel)
-              (fun x hx => ih x (Nat.le_trans (hr id _ hg x (by simpa [HObj.children] using hx)) (by omega)) (id :: visited))
-            refine ⟨N + 1, fun fuel hf reg => ?_⟩
-            obtain ⟨n, rfl⟩ : ∃ n, fuel = n + 1 := ⟨fuel - 1, by omega⟩
-            simp only [serF, hvis, hg, Bool.false_eq_true, if_false]
-            have := mapSt_ne_fuel (fun r item => serF c n heap decls (id :: visited) r item) items
-              (fun x hx r' => hN n (by omega) r' x hx) reg
-            cases hm : mapSt (fun r item => serF c n heap decls (id :: visited) r item) reg items with
-            | error e => simp only [ne_eq, Except.error.injEq]; intro he; exact this (by rw [hm, he])
-            | ok pr => simp
-          | dict kvs =>
-            obtain ⟨N, hN⟩ := unstr_ev_of_ranked c heap decls rank hr (r + 1) (.ref id) (by simp [rankV]; omega) none
-            refine ⟨N + 1, fun fuel hf reg => ?_⟩
-            obtain ⟨n, rfl⟩ : ∃ n, fuel = n + 1 := ⟨fuel - 1, by omega⟩
-            have := hN n (by omega) reg
-            simp only [serF, hvis, hg, Bool.false_eq_true, if_false]
-            cases hu : hUnstr c n heap reg decls none (.ref id) with
-            | error e => simp only [ne_eq, Except.error.injEq]; intro he; exact this (by rw [hu, he])
-            | ok p => simp
-          | inst cls attrs =>
-            -- cattrs on the instance
-            obtain ⟨N1, hN1⟩ := unstr_ev_of_ranked c heap decls rank hr (r + 1) (.ref id) (by simp [rankV]; omega)
-              (some (.dc cls))
-            -- every object strictly below it, uniformly
-            obtain ⟨N2, hN2⟩ := eventually_forall_mem (heap.map Prod.fst)
-              (fun i fuel reg => rank i + 1 ≤ rank id → serF c fuel heap decls (id :: visited) reg (.ref i) ≠ .error .fuel)
-              (fun i _ => by
-                by_cases hi : rank i + 1 ≤ rank id
-                · obtain ⟨N, hN⟩ := ih (.ref i) (by simp [rankV]; omega) (id :: visited)
-                  exact ⟨N, fun fuel hf reg _ => hN fuel hf reg⟩
-                · exact ⟨0, fun _ _ _ h => absurd h hi⟩)
-            refine ⟨max N1 N2 + 2, fun fuel hf reg => ?_⟩
-            obtain ⟨n, rfl⟩ : ∃ n, fuel = n + 1 := ⟨fuel - 1, by omega⟩
-            simp only [serF, hvis, hg, Bool.false_eq_true, if_false]
-            have hA := hN1 n (by omega) ((regTy n decls [] (.dc cls)).foldl insertName reg)
-            cases hu : hUnstr c n heap ((regTy n decls [] (.dc cls)).foldl insertName reg) decls (some (.dc cls)) (.ref id) with
-            | error e => simp only [ne_eq, Except.error.injEq]; intro he; exact hA (by rw [hu, he])
-            | ok p =>
-              simp only
-              -- the leaks of `p` lie strictly below `id`
-              have hleaks : ∀ i ∈ p.leaks, rank i + 1 ≤ rank id := by
-                obtain ⟨m, rfl⟩ : ∃ m, n = m + 1 := ⟨n - 1, by omega⟩
-                intro i hi
-                simp only [hUnstr] at hu
-                cases hcd : aget decls cls with
-                | none => simp [hcd] at hu
-                | some cd =>
-                  simp only [hcd] at hu
-                  cases hf : hUnstrFields (fun ft fv => hUnstr c m heap
-                      ((regTy (m + 1) decls [] (.dc cls)).foldl insertName reg) decls (some ft) fv) cd
-                      (((regTy (m + 1) decls [] (.dc cls)).foldl insertName reg).contains cls)
-                      (hAttrs heap (.ref id)) cd.fields with
-                  | error e => rw [hf] at hu; simp only [Except.map] at hu; cases hu
-                  | ok kvs =>
-                    simp only [hf, Except.map, Except.ok.injEq] at hu
-                    subst hu
-                    simp only [PV.leaks] at hi
-                    obtain ⟨kv, hkv, hikv⟩ := mem_leaksKvs _ i hi
-                    obtain ⟨f, _, x, hax, hrx⟩ := hUnstrFields_mem _ _ _ _ _ _ hf kv (mem_aofPairs _ _ hkv)
-                    obtain ⟨id', o, hv', hg', hxo⟩ := hAttrs_children heap (.ref id) f.pyName x hax
-                    cases hv'
-                    have h1 := hUnstr_leaks c heap decls rank hr m _ (some f.ty) x kv.2 hrx i hikv
-                    have h2 := hr id o hg' x hxo
-                    omega
-              have hE := ensureWith_ne_fuel (fun r' i => serF c n heap decls (id :: visited) r' (.ref i)) p
-                ((regTy n decls [] (.dc cls)).foldl insertName reg)
-                (fun i hi r' => by
-                  by_cases hmem : i ∈ heap.map Prod.fst
-                  · exact hN2 n (by omega) r' i hmem (hleaks i hi)
-                  · -- not an object of the heap at all: the lookup fails, which is not a budget failure
-                    obtain ⟨m, rfl⟩ : ∃ m, n = m + 1 := ⟨n - 1, by omega⟩
-                    have hgi : heap.get i = none := by
-                      cases hgi : heap.get i with
-                      | none => rfl
-                      | some o' => exact absurd (heap_get_mem heap i o' hgi) hmem
-                    simp only [serF, hgi]
-                    split <;> simp)
-              cases he : PV.ensureWith (fun r' i => serF c n heap decls (id :: visited) r' (.ref i))
-                  ((regTy n decls [] (.dc cls)).foldl insertName reg) p with
-              | error e => simp only [ne_eq, Except.error.injEq]; intro hee; exact hE (by rw [he, hee])
-              | ok pr => simp
-    | none => exact serF_ev_imm c heap decls rank hr _ rfl visited
-    | bool _ => exact serF_ev_imm c heap decls rank hr _ rfl visited
-    | int _ => exact serF_ev_imm c heap decls rank hr _ rfl visited
-    | str _ => exact serF_ev_imm c heap decls rank hr _ rfl visited
-    | enum _ _ => exact serF_ev_imm c heap decls rank hr _ rfl visited
-    | bytearray _ => exact serF_ev_imm c heap decls rank hr _ rfl visited
-    | bytes b => exact serF_ev_imm c heap decls rank hr _ rfl visited
-    | datetime b => exact serF_ev_imm c heap decls rank hr _ rfl visited
-    | date b => exact serF_ev_imm c heap decls rank hr _ rfl visited
-    | time b => exact serF_ev_imm c heap decls rank hr _ rfl visited
-    | uuid b => exact serF_ev_imm c heap decls rank hr _ rfl visited
-    | «opaque» k b => exact serF_ev_imm c heap decls rank hr _ rfl visited
+  intro k
+  induction k with
+  | zero =>
+    intro visited hfc v
+    refine serF_ev_step c heap decls visited (fun id o hg hvis _ => ?_) v
+    have := freeCount_lt heap visited id o hg hvis
+    omega
+  | succ k ih =>
+    intro visited hfc v
+    refine serF_ev_step c heap decls visited (fun id o hg hvis x => ?_) v
+    have := freeCount_lt heap visited id o hg hvis
+    exact ih (id :: visited) (by omega) x
 
 end Pog
